@@ -48,7 +48,9 @@ func c01flip(r *rand.Rand, d []byte, lo, hi int) []byte {
 }
 
 var c01Mutators = []c01Mut{
-	{"flip-bit", true, true, func(r *rand.Rand, s *c01Scn, p string, d []byte) ([]byte, error) { return c01flip(r, d, 0, len(d)), nil }},
+	{"flip-bit", true, true, func(r *rand.Rand, s *c01Scn, p string, d []byte) ([]byte, error) {
+		return c01flip(r, d, 0, len(d)), nil
+	}},
 	{"truncate-1", true, true, func(r *rand.Rand, s *c01Scn, p string, d []byte) ([]byte, error) {
 		if len(d) == 0 {
 			return []byte{0}, nil
@@ -68,7 +70,9 @@ var c01Mutators = []c01Mut{
 	{"extend-32", true, true, func(r *rand.Rand, s *c01Scn, p string, d []byte) ([]byte, error) {
 		return append(append([]byte(nil), d...), make([]byte, 32)...), nil
 	}},
-	{"error", true, true, func(r *rand.Rand, s *c01Scn, p string, d []byte) ([]byte, error) { return nil, fmt.Errorf("injected network error") }},
+	{"error", true, true, func(r *rand.Rand, s *c01Scn, p string, d []byte) ([]byte, error) {
+		return nil, fmt.Errorf("injected network error")
+	}},
 	// ---- tile specific
 	{"flip-first-slot", false, true, func(r *rand.Rand, s *c01Scn, p string, d []byte) ([]byte, error) { return c01flip(r, d, 0, 32), nil }},
 	{"flip-last-slot", false, true, func(r *rand.Rand, s *c01Scn, p string, d []byte) ([]byte, error) {
